@@ -1,0 +1,69 @@
+//go:build verif
+
+package file
+
+import (
+	"reflect"
+	"runtime"
+	"strings"
+)
+
+// Verification hooks (see /verif). Not compiled without the "verif" build tag.
+
+type VerifRow struct {
+	Patterns []string
+	Magics   [][]byte
+	Sniffer  string // function name, "" when the row has none
+	Parser   string // function name
+}
+
+func verifFuncName(f any) string {
+	v := reflect.ValueOf(f)
+	if v.IsNil() {
+		return ""
+	}
+	n := runtime.FuncForPC(v.Pointer()).Name()
+	if i := strings.LastIndex(n, "."); i >= 0 {
+		n = n[i+1:]
+	}
+	return n
+}
+
+// VerifFiletypes returns the format table as the running code holds it.
+func VerifFiletypes() []VerifRow {
+	var rows []VerifRow
+	for _, ft := range filetypes {
+		r := VerifRow{Patterns: append([]string{}, ft.patterns...), Sniffer: verifFuncName(ft.identify), Parser: verifFuncName(ft.parser)}
+		for _, m := range ft.magics {
+			r.Magics = append(r.Magics, []byte(m))
+		}
+		rows = append(rows, r)
+	}
+	return rows
+}
+
+// VerifRowPredicates evaluates the three predicates of every table row.
+func VerifRowPredicates(name string, data []byte, size int64) [][3]bool {
+	var out [][3]bool
+	for _, ft := range filetypes {
+		out = append(out, [3]bool{ft.MatchesName(name), ft.MatchesMagic(data), ft.SmellsLike(name, data, size)})
+	}
+	return out
+}
+
+// VerifRunRowParser runs the parser of table row i on data.
+func VerifRunRowParser(i int, info Info, data []byte) (Info, error) {
+	return filetypes[i].parser(info, data)
+}
+
+// VerifCandidateParserNames returns the names of candidateParsers(info, data), in order.
+func VerifCandidateParserNames(info Info, data []byte) []string {
+	var out []string
+	for _, p := range candidateParsers(info, data) {
+		out = append(out, verifFuncName(p))
+	}
+	return out
+}
+
+func VerifParseDERData(b []byte) Info { return parseDERData(b) }
+func VerifParseASN1Data(b []byte) Info { return parseASN1Data(b) }
